@@ -4,5 +4,7 @@ SchemasDef == {"a", "b", "c"}
 MapIdsDef  == {"a", "b", "a#"}      \* "a#" names no schema exactly: harmless with exact matching
 PkgOfDef   == [m \in MapIdsDef |-> IF m = "a" THEN "pa" ELSE IF m = "b" THEN "pb" ELSE "px"]
 OutOfDef   == [m \in MapIdsDef |-> IF m = "a" THEN "a.go" ELSE IF m = "b" THEN "b.go" ELSE "x.go"]
+ExtsDef    == <<".yml", ".yaml", ".json">>
+CandsDef   == {".json", ".yaml"}
 PropsDef   == [s \in SchemasDef |-> IF s = "a" THEN {"A1", "A2"} ELSE IF s = "b" THEN {"B1"} ELSE {"C1", "C2"}]
 =============================================================================
